@@ -151,6 +151,22 @@ fn emit_wrapped_loop_choice_header(
         json!("/str"),
     ];
 
+    // With both start and choice-only text the choice point pops two strings: the
+    // choice-only text is evaluated on its own, after the start text (which lives in `s`
+    // because the chosen branch prints it again).
+    let separate_choice_only = choice.has_start_content && choice.has_choice_only_content;
+    if separate_choice_only {
+        arr.push(json!("str"));
+        emit_choice_text_content(
+            &choice.choice_only_text,
+            &choice.choice_only_tags,
+            &mut arr,
+            scope,
+            context,
+        )?;
+        arr.push(json!("/str"));
+    }
+
     for (index, condition) in choice.conditions.iter().enumerate() {
         emit_condition(condition, &mut arr, scope, context)?;
         if index > 0 {
@@ -172,19 +188,24 @@ fn emit_wrapped_loop_choice_header(
         scope,
         context,
     )?;
-    emit_choice_text_content(
-        &choice.choice_only_text,
-        &choice.choice_only_tags,
-        &mut s,
-        scope,
-        context,
-    )?;
+    if !separate_choice_only {
+        emit_choice_text_content(
+            &choice.choice_only_text,
+            &choice.choice_only_tags,
+            &mut s,
+            scope,
+            context,
+        )?;
+    }
     s.push(json!({"->": "$r", "var": true}));
     s.push(Value::Null);
     arr.push(json!({"s": s}));
 
     Ok(Value::Array(arr))
 }
+
+/// Tokens of the call to the start-text container `s` at the head of a chosen branch.
+const WRAPPED_START_CALL_TOKENS: usize = 6;
 
 struct WrappedLoopChoiceBodyConfig<'a> {
     choice_index: usize,
@@ -229,6 +250,12 @@ fn emit_wrapped_loop_choice_body(
             body_already_emitted = true;
         } else if !choice.has_start_content {
             branch_nodes.extend(tokenize_inline_content(selected_text)?);
+        } else if let Some(inner) = selected_text.strip_prefix(choice.start_text.as_str())
+            && !inner.is_empty()
+        {
+            // The start text is replayed through `s`; what follows it on the choice line
+            // (after any [bracketed] part) is printed by the branch itself.
+            branch_nodes.extend(tokenize_inline_content(inner)?);
         }
         branch_nodes.extend(choice.selected_tags.iter().cloned().map(Node::Tag));
         if !body_already_emitted && !choice.has_start_content {
@@ -259,12 +286,25 @@ fn emit_wrapped_loop_choice_body(
     } else if choice.has_choice_only_content && !choice.has_start_content {
         branch_nodes.push(Node::Newline);
     }
+    if choice.has_start_content && !body_already_emitted {
+        // ends the choice's own line (start text + inner text)
+        branch_nodes.push(Node::Newline);
+    }
 
     if !body_already_emitted {
         branch_nodes.extend(choice.body.clone());
     }
 
     let has_nested_choices = branch_nodes.iter().any(|n| matches!(n, Node::Choice(_)));
+    // The call to `s` (6 tokens) is put in front of the branch content below: indices
+    // computed while emitting the content have to count it.
+    let offset_scope;
+    let branch_scope = if choice.has_start_content && !body_already_emitted {
+        offset_scope = branch_scope.with_param_offset(WRAPPED_START_CALL_TOKENS);
+        &offset_scope
+    } else {
+        branch_scope
+    };
     let mut branch_container = if has_nested_choices {
         emit_nodes_with_continuation(
             &branch_nodes,
@@ -320,8 +360,11 @@ fn emit_wrapped_loop_choice_body(
         json!({"temp=": "$r"}),
         json!({"->": format!("{}.{}.s", config.choices_prefix, config.header_idx)}),
         Value::Array(vec![json!({"#n": "$r2"})]),
-        json!("\n"),
     ];
+    debug_assert_eq!(out.len(), WRAPPED_START_CALL_TOKENS);
+    if body_already_emitted {
+        out.push(json!("\n"));
+    }
     out.append(&mut arr);
     out.push(last);
     Ok(Value::Array(out))
